@@ -440,6 +440,15 @@ class Program:
             for m in self.mods.values():
                 if m.short == mod and fn in m.funcs:
                     return m.funcs[fn]
+            # moved to another module of the package and imported back under the same name
+            for m in self.mods.values():
+                if m.short == mod:
+                    r = self.lookup(m, fn)
+                    if r and r[0] == 'func':
+                        return r[1]
+            cands = [m.funcs[fn] for m in self.mods.values() if fn in m.funcs]
+            if len(cands) == 1 and any(m.short == mod for m in self.mods.values()):
+                return cands[0]
             raise AnalysisError('anchor function %s not found' % qual)
         cname, _, mname = qual.partition('.')
         c = self.classes.get(cname)
@@ -451,6 +460,18 @@ class Program:
             u = c.setters.get(mname[:-5])
         else:
             u = c.methods.get(mname) or c.props.get(mname)
+            if u is None:
+                # an override of the reference tree that was removed because it duplicated the inherited method: what
+                # an instance runs is the inherited one, accepted only when it does exactly what the override did
+                mem = self.member(c, mname)
+                if mem and mem[0] in ('method', 'prop'):
+                    from .normalise import body_hash, PINNED_FILE
+                    import json
+                    if not hasattr(Program, '_pinned_bodies'):
+                        Program._pinned_bodies = json.loads(PINNED_FILE.read_text()).get('bodies', {})
+                    ref = Program._pinned_bodies.get(qual)
+                    if ref and body_hash(mem[2].node) == ref[0]:
+                        u = mem[2]
         if u is None:
             raise AnalysisError('anchor %s not found' % qual)
         return u
